@@ -337,20 +337,23 @@ def run(ctx, rep):
         # decided per identifier (all 256, the word not being a calibration word): the inner-barrel handler runs exactly
         # for id[7:5] == 1, the outer-barrel handler exactly for id[7:5] == 2
         wrong = []
-        ev.watch = lambda c: c.endswith("::process_ib_data_word") or c.endswith("::process_ob_data_word")
-        slf_ = Agg("CdpRunningValidator", "CdpRunningValidator", {"tracker": Agg("CdpTracker", "CdpTracker", {"is_start_of_data": Cond("false")})})
+        # (the handlers may be separate methods or one shared method: what counts is which barrel's validator sees the word)
+        ev.watch = lambda c: c.endswith("IbDataWordValidator::check") or c.endswith("ObDataWordValidator::check")
+        CRV_ = pdw.rsplit("::", 1)[0] + "::"
+        slf_ = Agg("CdpRunningValidator", "CdpRunningValidator", {"tracker": Agg("CdpTracker", "CdpTracker", {"is_start_of_data": Cond("false")}),
+                                                                  "running_checks_enabled": Cond("true")})
         try:
             for i in range(256):
                 ev.assume = {}
                 ev.assume_bits("W", 72, 8, i)
                 try:
-                    recs_ = [o for o in ev.collect_ifs(pdw, [slf_, Slice("W", 0, 10)]) if "call" in o and not any(g in ("false", "not true") for g in o["guard"])]
+                    recs_ = [o for o in ev.collect_ifs(pdw, [slf_, Slice("W", 0, 10)], follow=lambda c: c.startswith(CRV_)) if "call" in o and not any(g in ("false", "not true") for g in o["guard"])]
                 except Unsupported as e:
                     wrong.append((hex(i), "unevaluable %s" % e))
                     break
-                got_ = sorted(o["call"].split("::")[-1] for o in recs_ if all(g in ("true", "not false") for g in o["guard"]))
+                got_ = sorted(o["call"].split("::")[-2] for o in recs_ if all(g in ("true", "not false") for g in o["guard"]))
                 und_ = [o for o in recs_ if not all(g in ("true", "not false") for g in o["guard"])]
-                want_ = {1: ["process_ib_data_word"], 2: ["process_ob_data_word"]}.get(i >> 5, [])
+                want_ = {1: ["IbDataWordValidator"], 2: ["ObDataWordValidator"]}.get(i >> 5, [])
                 if got_ != want_ or und_:
                     wrong.append((hex(i), got_ + ["undecided:%d" % len(und_)] if und_ else got_))
         finally:
